@@ -39,6 +39,9 @@ def main():
             mp = os.path.join(sd, d, 'meta.json')
             if os.path.exists(mp):
                 m = json.load(open(mp))
+                if m.get('obsolete'):
+                    print('%-48s OBSOLETE (no longer breaks the property on the repaired tree, see meta.json)' % ('seeded/' + d))
+                    continue
                 items.append(('seeded/' + d, os.path.join(sd, d, 'patch.diff'), m['property'], m.get('also', [])))
     items = [i for i in items if args.only in i[0]]
     scratch = tempfile.mkdtemp(prefix='nptdms-selftest-', dir='/tmp')
